@@ -294,7 +294,7 @@ func c15ClassOf(diff string) string {
 		p = p[:i]
 	}
 	p = strings.NewReplacer("[]", "", "{}", "").Replace(p)
-	return "field" + strings.ToLower(strings.Replace(p, ".", "-", -1))
+	return "field" + strings.ToLower(strings.Replace(strings.TrimPrefix(p, "Sequence"), ".", "-", -1))
 }
 
 func c15Clip(s string) string {
@@ -618,22 +618,33 @@ func c15FirstDiffLine(a, b []byte) string {
 }
 
 func c15LineClass(detail string) string {
-	// class = the keyword (or column kind) of the first differing line
+	// class = the kind of the first differing line in the directly built text
 	i := strings.Index(detail, "direct \"")
 	if i < 0 {
 		return "text-differs"
 	}
-	f := strings.Fields(detail[i+8:])
+	line := detail[i+8:]
+	switch {
+	case strings.Contains(line, "\\t"):
+		return "line-gff-feature"
+	case strings.HasPrefix(line, "##") || strings.HasPrefix(line, ">"):
+		return "line-gff-pragma-or-header"
+	case strings.HasPrefix(line, "                     "):
+		return "line-qualifier"
+	case strings.HasPrefix(line, "     "):
+		return "line-feature"
+	}
+	f := strings.Fields(line)
 	if len(f) == 0 {
 		return "text-differs"
 	}
-	w := strings.ToLower(strings.Trim(f[0], "\"/#>"))
+	w := strings.ToLower(strings.Trim(f[0], "\"/"))
 	for _, k := range []string{"locus", "definition", "accession", "version", "keywords", "source", "organism", "reference", "authors", "title", "journal", "pubmed", "comment", "features", "origin"} {
 		if w == k {
 			return "line-" + k
 		}
 	}
-	return "line-feature-or-sequence"
+	return "line-sequence-or-other"
 }
 
 // c15Convert checks format -> JSON -> format against format -> format.
